@@ -2,7 +2,9 @@
 """Small behaviour-preserving source edits must keep every translator at 0 errors (and, with --lean, keep the
 generated theorems provable). Usage: selftest.py [--lean]"""
 import os, sys, shutil, subprocess, json, re
-REPO='/repo'; TMP='/verif/.build/selftest/repo'; TR='/verif/translator'; LEAN='/verif/lean'
+HERE=os.path.dirname(os.path.abspath(__file__))
+REPO='/repo'; TMP='/verif/.build/selftest/repo'; TR=os.environ.get('SELFTEST_TR', HERE); LEAN='/verif/lean'
+GENOUT='/verif/.build/selftest/gen'   # without --lean the generated files go to a scratch directory (a check may be running)
 EDITS = {
  'conv-hex-literal': [('dasp_sample/src/conv.rs', '(s + 127 + 1) as u8', '(s + 0x7F + 1) as u8')],
  'conv-typed-float-literal': [('dasp_sample/src/conv.rs', 's as f32 / 128.0', 's as f32 / 128.0f32')],
@@ -30,6 +32,37 @@ EDITS = {
  'osc-tau-and-wrapped-rename': [('dasp_signal/src/lib.rs', 'const PI_2: f64 = core::f64::consts::PI * 2.0;', 'const PI_2: f64 = core::f64::consts::TAU;'),
                                 ('dasp_signal/src/lib.rs', 'let phase = self.next;\n        self.next = (self.next + self.step.step()) % rem;\n        phase', 'let current = self.next;\n        let advanced = current + self.step.step();\n        self.next = advanced % rem;\n        current')],
  'osc-comment': [('dasp_signal/src/lib.rs', 'let x = (seed << 13) ^ seed;', 'let x = (seed << 13) ^ seed; /* scramble */')],
+ 'osc-match-bool-and-zero-arm': [('dasp_signal/src/lib.rs', """        let phase = self.phase.next_phase();
+        if phase < 0.5 {
+            1.0
+        } else {
+            -1.0
+        }""", """        match self.phase.next_phase() < 0.5 {
+            true => 1.0,
+            false => -1.0,
+        }"""),
+     ('dasp_signal/src/lib.rs', """                let mut grad = 1.0 + (h & 7) as f64;
+                // Set a random sign for the gradient.
+                if (h & 8) != 0 {
+                    grad = -grad;
+                }""", """                let magnitude = 1.0 + (h & 7) as f64;
+                let grad = match h & 8 {
+                    0 => magnitude,
+                    _ => -magnitude,
+                };"""),
+     ('dasp_signal/src/lib.rs', 'PERM[(i as u8) as usize]', 'PERM[(i & 0xFF) as usize]')],
+ 'osc-noise-linear-chain-assoc-helper': [('dasp_signal/src/lib.rs', """            1.0 - (x
+                .wrapping_mul(
+                    x.wrapping_mul(x)
+                        .wrapping_mul(PRIME_1)
+                        .wrapping_add(PRIME_2),
+                )
+                .wrapping_add(PRIME_3)
+                & 0x7fffffff) as f64
+                / 1_073_741_824.0""", """            const MASK_31_BITS: u64 = (1 << 31) - 1;
+            const TWO_POW_THIRTY: f64 = (1u64 << 30) as f64;
+            let hashed = x.wrapping_mul(x).wrapping_mul(PRIME_1).wrapping_add(PRIME_2).wrapping_mul(x).wrapping_add(PRIME_3);
+            1.0 - (hashed & MASK_31_BITS) as f64 / TWO_POW_THIRTY""")],
  'types-eq-as-shift': [('dasp_sample/src/types.rs', 'eq: 8_388_608,', 'eq: 1 << 23,')],
  'sample-table-comment': [('dasp_sample/src/lib.rs', 'impl_sample! {', 'impl_sample! { /* table */', 1)],
 }
@@ -46,9 +79,28 @@ REJECT = {
  'osc-simplex-corner': [('dasp_signal/src/lib.rs', 'let x1 = x0 - 1.0;', 'let x1 = x0 + 1.0;')],
  'osc-simplex-square-once': [('dasp_signal/src/lib.rs', 't1 *= t1;', 't1 *= t0;')],
  'osc-noise-add-for-mul': [('dasp_signal/src/lib.rs', 'x.wrapping_mul(x)\n', 'x.wrapping_add(x)\n')],
+ 'osc-match-arms-swapped': [('dasp_signal/src/lib.rs', """                if (h & 8) != 0 {
+                    grad = -grad;
+                }""", """                grad = match h & 8 {
+                    0 => -grad,
+                    _ => grad,
+                };""")],
+ 'osc-match-bool-swapped': [('dasp_signal/src/lib.rs', """        if phase < 0.5 {
+            1.0
+        } else {
+            -1.0
+        }""", """        match phase < 0.5 {
+            false => 1.0,
+            true => -1.0,
+        }""")],
+ 'osc-hash-low-7-bits': [('dasp_signal/src/lib.rs', 'PERM[(i as u8) as usize]', 'PERM[(i & 0x7F) as usize]')],
+ 'osc-noise-chain-wrong-order': [('dasp_signal/src/lib.rs', """.wrapping_mul(PRIME_1)
+                        .wrapping_add(PRIME_2),""", """.wrapping_add(PRIME_2)
+                        .wrapping_mul(PRIME_1),""")],
  'types-eq-plus-one': [('dasp_sample/src/types.rs', 'eq: 8_388_608,', 'eq: 8_388_608 + 1,')],
  'ops-guard-strict': [('dasp_sample/src/ops.rs', 'if x >= 0.0 {\n            f32::from_bits', 'if x > 0.0 {\n            f32::from_bits')],
 }
+NEEDS_LEAN = {'types-eq-plus-one'}
 def run(cmd, env=None):
     e=dict(os.environ); e.update(env or {})
     p=subprocess.run(cmd, shell=True, stdout=subprocess.PIPE, stderr=subprocess.STDOUT, text=True, env=e)
@@ -70,13 +122,15 @@ for name, edits in list(EDITS.items()) + list(REJECT.items()):
     errs=[]
     for t in sorted(os.listdir(TR)):
         if not t.startswith('gen_') or not t.endswith('.py'): continue
-        rc,out=run('python3 %s/%s'%(TR,t), {'VERIF_REPO':TMP})
+        rc,out=run('python3 %s/%s%s'%(TR,t,'' if lean else ' '+GENOUT), {'VERIF_REPO':TMP})
         last=out.strip().split('\n')[-1] if out.strip() else ''
         m=re.search(r'(\d+) (?:errors|uncovered)', last)
         if rc!=0 or not m or int(m.group(1))!=0: errs.append('%s: %s'%(t,last[:150]))
     if lean and not errs:
         rc,out=run('cd %s && lake build Dasp.Gen.ConvTable Dasp.Gen.ConvFloatThm Dasp.Props.C03 Dasp.Props.C11 Dasp.Props.C15 Dasp.Props.C17 2>&1 | grep -E "^error" | head -3'%LEAN)
         if out.strip(): errs.append('lean: '+out.strip()[:300])
+    if name in REJECT and not lean and name in NEEDS_LEAN:
+        print(name, 'skipped (refused only by a proof: run with --lean)'); continue
     if name in REJECT:
         print(name, 'OK (refused: %s)' % errs[0][:110] if errs else 'FAIL: a behaviour-changing edit was accepted'); bad += 0 if errs else 1
         continue
